@@ -106,6 +106,8 @@ class Live:
                 self.m.reset_images()
             elif name == "write":
                 out = self.newpath()
+                if os.path.exists(out) and not variant & 1:
+                    os.remove(out)                              # shared file names: without overwrite the target must not exist
                 self.m.write(as_path(out, up), overwrite=bool(variant & 1), removed=op["removed"])
                 self.path = out
             elif name in ("fn_remove", "fn_remove_keep"):
@@ -178,7 +180,7 @@ def run_history(ctx, hist, variant, kind):
     """hist: [{op, post, disk}] as TLC printed it (first entry = the initial read)."""
     steps = [{"op": norm_op(h["op"]), "post": h["post"], "disk": h["disk"]} for h in hist]
     case = {"kind": kind, "doc": hist[0]["disk"], "steps": steps, "variant": variant}
-    live = Live(ctx.sub("mdoc"), "h%d_%d" % (os.getpid(), ctx.traces))
+    live = Live(ctx.sub("mdoc"), "shared_h" if ctx.traces % 2 else "h%d_%d" % (os.getpid(), ctx.traces))
     live.start(hist[0]["disk"], variant)
     for i, st in enumerate(steps):
         op = st["op"]
@@ -393,7 +395,7 @@ def gen_mdoc_case(rng, idx, nmax, nforce=0):
 def run_random_mdocs(ctx, cases, corrupt=None):
     traces, kept = [], []
     for case in cases:
-        live = Live(ctx.sub("mdoc"), "r%d_%d" % (os.getpid(), ctx.traces))
+        live = Live(ctx.sub("mdoc"), "shared_r" if ctx.traces % 2 else "r%d_%d" % (os.getpid(), ctx.traces))
         live.start(case["doc"], case["variant"])
         steps, failed = [], False
         for i, op in enumerate(case["ops"]):
@@ -499,10 +501,40 @@ def gen_tomo_ids(rng, nt, k=None):
     return ids
 
 
+def reorder_tilts(case, rng, k):
+    """Single-tomogram builder with a tilt ARRAY: arrays are taken as they are, so every order is a valid input
+    (ascending, descending, dose-symmetric acquisition order, random); the list then goes on to wedge_list_sg_to_em."""
+    if case.get("what") != "single" or case.get("tlt_input") != "array":
+        return case
+    t = case["tomos"][0]
+    n = len(t["tilts"])
+    asc = sorted(t["tilts"])
+    mode = ["asc", "desc", "dose-symmetric", "random"][k % 4]
+    if mode == "desc":
+        order = asc[::-1]
+    elif mode == "dose-symmetric":
+        mid = n // 2
+        order = [asc[mid]]
+        for d in range(1, n):
+            for j in (mid + d, mid - d):
+                if 0 <= j < n:
+                    order.append(asc[j])
+    elif mode == "random":
+        order = list(asc)
+        rng.shuffle(order)
+    else:
+        order = asc
+    t["tilts"] = order
+    t["asis"] = True
+    case["order"] = mode
+    case["to_em"] = True
+    return case
+
+
 def gen_table_case(rng, idx):
     case = gen_table_case0(rng, idx)
     case.setdefault("style", rng.randrange(16))
-    return case
+    return reorder_tilts(case, rng, idx)
 
 
 def gen_table_case0(rng, idx):
@@ -614,6 +646,7 @@ def sweep_cases(rng, first_id, nhi):
             k += 1
     for k2, c in enumerate(out):
         c["style"] = k2 % 16                                   # line ends / trailing blanks / Path / float32 rotate
+        reorder_tilts(c, rng, k2 // 3)
     for tomo_input in ("array", "file"):
         ids = sorted(rng.sample(range(1, 999), 3))
         out.append({"kind": "wedge", "id": idx, "what": "em", "tomo_input": tomo_input, "consts": gen_consts(rng), "ctf": "none",
@@ -817,6 +850,8 @@ def exec_table_case(case, wd):
             dim = [W(list(t["dim"]), "tomo_dim"), W(np.array(t["dim"], dtype=[float, int][case["variant"] % 2]), "tomo_dim"),
                    os.path.join(wd, (F3 + "_dim.txt") % t["id"])][case["variant"] % 3]
             zsh = [t["zshift"] / 10.0, os.path.join(wd, (F3 + "_zshift.txt") % t["id"])][(case["variant"] // 3) % 2]
+            if case.get("order") and case["tlt_input"] == "array":
+                pass                                            # (the case's tilts are already in the requested order)
             star = os.path.join(wd, "single.star")
             # drop_nan_columns=False keeps the unset defocus / exposure columns (all NaN): the same table
             df = wedgeutils.create_wedge_list_sg(t["id"], dim, px, tlt, z_shift=zsh, ctf_file=ctf_file, ctf_file_type=ctf_type,
@@ -824,6 +859,13 @@ def exec_table_case(case, wd):
                                                  output_file=as_path(star, up), drop_nan_columns=not (case["variant"] & 4))
             out.append(("sg", wedge_rows_of_frame(df)))
             out.append(("sg", wedge_rows_of_frame(frame_of_star(star))))
+            if case.get("to_em"):
+                # the whole chain: STOPGAP list (tilts in the array's own order) -> EM list, returned table and written file
+                emf = os.path.join(wd, "single_from_sg.em")
+                em = wedgeutils.wedge_list_sg_to_em(star, emf, write_out=True)
+                out.append(("sg2em", [{"tomo": tm.sround(r["tomo_id"], 1), "lo": tm.sround(r["min_tilt_angle"], 100),
+                                       "hi": tm.sround(r["max_tilt_angle"], 100)} for _, r in em.iterrows()]))
+                out.append(("sg2em", em_rows(emf)))
             why = W.changed()
             if why:
                 out.append(("ARG", why))
@@ -1046,7 +1088,7 @@ def exec_session(case, wd):
 def run_sessions(ctx, cases):
     traces, kept = [], []
     for case in cases:
-        wd = os.path.join(ctx.sub("sessions"), "s%d_%d" % (os.getpid(), ctx.traces))
+        wd = os.path.join(ctx.sub("sessions"), "shared" if case.get("id", 0) % 2 == 0 else "s%d_%d" % (os.getpid(), ctx.traces))
         res, err = core.call_guarded(exec_session, case, wd)
         ctx.ran(case)
         if err is not None:
@@ -1066,7 +1108,8 @@ def run_sessions(ctx, cases):
 def run_tables(ctx, cases, corrupt=None):
     traces, kept = [], []
     for case in cases:
-        wd = os.path.join(ctx.sub("tables"), "c%d_%d" % (os.getpid(), ctx.traces))
+        # every third case uses ONE directory per process: all its input files are rewritten under the same names
+        wd = os.path.join(ctx.sub("tables"), "shared" if case.get("id", 0) % 3 == 0 else "c%d_%d" % (os.getpid(), ctx.traces))
         res, err = core.call_guarded(exec_table_case, case, wd)
         ctx.ran(case)
         opname = {"tlt": "tlt_load", "dose": "total_dose_load", "mdocdose": "total_dose_load(mdoc)", "defocus": "defocus_load",
